@@ -86,7 +86,7 @@ def run(ctx):
                 'with every axis); decimal strings of 1..34 digits in every spelling (no dot, no integer part, zero parts, E/D exponents '
                 '+-0..12, sign, trailing j, spaces) plus malformed ones; to_string with precision None and 0..20, alwayssign, negative and '
                 'imaginary phases, fractions of every size incl. 1e-17 and exact +-1/2. non-trivial: all; distinct by input.')
-    ctx.trusted = ['Coq 8.16.1 kernel; stdlib FloatAxioms + real-number axioms through Flocq (comparison theorem); vm_compute',
+    ctx.trusted = ['translator T7 translate/py_float2coq.py (comparison difference, cycle, argmin/argmax, lexsort keys, min/max/ptp; string methods pinned by syntax-tree hash, translate/pinhash.py)', 'Coq 8.16.1 kernel; stdlib FloatAxioms + real-number axioms through Flocq (comparison theorem); vm_compute',
                    'CPython float(str) = correctly rounded decimal->binary64, repr(float) = shortest round-trip digits, format(x, ".Nf") = '
                    'exact value rounded half-even, int -> float and 10**-k correctly rounded: modelled by exact arithmetic in Model/DecStr.v '
                    'and validated bit for bit / character for character on every case']
